@@ -718,12 +718,20 @@ func runE2E(raw json.RawMessage, seed int64, rec *Rec) {
 			cerr = err
 			break
 		}
+		var early http.Header
+		if sc.Tid%2 == 0 {
+			// user code that looks at the headers first: ResponseHeader blocks until they are there
+			early = ss.ResponseHeader().Clone()
+		}
 		for ss.Receive() {
 			retained = append(retained, append([]byte(nil), ss.Msg().Value...)) // Msg() is reused by the next Receive
 			cMsgs = append(cMsgs, st.table.ID(ss.Msg().Value))
 		}
 		cerr = ss.Err()
 		chdr, ctrl = ss.ResponseHeader(), ss.ResponseTrailer()
+		if early != nil {
+			chdr = early
+		}
 		_ = ss.Close()
 		_ = ss.Close() // closing twice (a deferred Close after an explicit one) is ordinary user code
 	default:
@@ -767,6 +775,10 @@ func runE2E(raw json.RawMessage, seed int64, rec *Rec) {
 			}
 		}
 		_ = bs.CloseRequest()
+		var early http.Header
+		if sc.Tid%2 == 0 {
+			early = bs.ResponseHeader().Clone()
+		}
 		for {
 			m, err := bs.Receive()
 			if err != nil {
@@ -780,6 +792,9 @@ func runE2E(raw json.RawMessage, seed int64, rec *Rec) {
 			cMsgs = append(cMsgs, st.table.ID(m.Value))
 		}
 		chdr, ctrl = bs.ResponseHeader(), bs.ResponseTrailer()
+		if early != nil {
+			chdr = early
+		}
 		_ = bs.CloseResponse()
 		_ = bs.CloseResponse()
 	}
